@@ -421,7 +421,9 @@ func (fx *FuncExec) applyContract(st *State, c *Contract, key string, cpkg *type
 		fx.allocMonotone(st, preAl)
 		if c.HasModifies {
 			mod := fx.modTerms(c, func() *SpecEnv { return mkEnv(pre, pre, "modifies") })
-			fx.frameFacts(st, pre, comps, mod)
+			if !c.QuietFrame {
+				fx.frameFacts(st, pre, comps, mod)
+			}
 			fx.subFrame(pre, mod, key, pos)
 		} else if fx.modSet != nil && len(comps) > 0 {
 			nonAL := false
@@ -841,11 +843,15 @@ func (fx *FuncExec) subFrame(pre *State, mod map[string][]string, key string, po
 			entryAl = fx.h0(al)
 		}
 		for _, m := range mod[ks] {
-			var ins []string
-			for _, mine := range fx.modSet[ks] {
-				ins = append(ins, eq(m, mine))
-			}
 			zero := fx.reg.Zero(ks)
+			if strings.HasPrefix(m, "?pred:") {
+				fx.nq++
+				r := fmt.Sprintf("r!m%d", fx.nq)
+				cond := strings.ReplaceAll(strings.TrimPrefix(m, "?pred:"), "%R%", r)
+				fx.oblige(pre, "frame-call", key, fmt.Sprintf("(forall ((%s %s)) (=> %s %s))", r, ks, and(cond, sel(entryAl, r), not(eq(r, zero))), or(inSetTerms(r, fx.modSet[ks])...)), "callee's modifies set is within the caller's (comprehension)", pos)
+				continue
+			}
+			ins := inSetTerms(m, fx.modSet[ks])
 			fx.oblige(pre, "frame-call", key, imp(and(sel(entryAl, m), not(eq(m, zero))), or(ins...)), "callee's modifies set is within the caller's: "+trunc(m, 60), pos)
 		}
 	}
